@@ -2,6 +2,7 @@ package rules
 
 import (
 	"fmt"
+	"go/token"
 	"go/types"
 	"strings"
 
@@ -22,13 +23,13 @@ func init() {
 			"(R5) the per-key list an entry is appended to is registered in the pool's map at that moment.",
 		NotDecided:  "the numeric bound and the exactly-one-owner claim for all put/take/close histories and timer schedules: the rules are the invariants such a proof would need, not the proof.",
 		Assumptions: []string{"time.Timer.Stop reports false exactly when the callback has started or will start (library contract)"},
-		Rules: []Rule{
+		Rules: append([]Rule{
 			{ID: "C15.R1", Doc: "pool state (entries, order, list/node fields, entry.exp) only under Pool.mu", Run: c15r1},
 			{ID: "C15.R2", Doc: "list.removeEntry is idempotent behind node.linked; appendEntry sets it", Run: c15r2},
 			{ID: "C15.R3", Doc: "per-key list and order list get the same removals/appends on every path", Run: c15r3},
 			{ID: "C15.R4", Doc: "ownership: Take/closeEntry/Put/expiry-callback guards (timer stopped or absent; unblocked; not closed; stop implies unlink)", Run: c15r4},
 			{ID: "C15.R5", Doc: "an entry is appended only to a per-key list that is registered in Pool.entries", Run: c15r5},
-		},
+		}, disciplineRules("C15", "drpcpool", "drpccache")...),
 	})
 }
 
@@ -153,6 +154,89 @@ func c15r2(c *an.Ctx) {
 		}
 	}
 	c.Check(set, "(*list).appendEntry | sets the linked flag on every path", c.P.Pos(ap.Pos()), "", "an appended entry is not marked linked: it can never be removed")
+	// linking and unlinking touch the same link fields: both directions (next of the predecessor, prev of the
+	// successor) and both ends (head, tail)
+	written := func(f *ssa.Function) map[string]bool {
+		out := map[string]bool{}
+		an.Instrs(f, func(in ssa.Instruction) {
+			if st, ok := in.(*ssa.Store); ok {
+				if fv := an.PathOf(st.Addr).Last(); isFieldOf(fv, pa.head, pa.tail, pa.count, pa.next, pa.pv, pa.linked) {
+					out[fv.Name()] = true
+				}
+			}
+		})
+		return out
+	}
+	wa, wr := written(ap), written(rm)
+	var missing []string
+	for _, fv := range []*types.Var{pa.head, pa.tail, pa.count, pa.next, pa.pv, pa.linked} {
+		if wa[fv.Name()] != wr[fv.Name()] {
+			who := "removeEntry"
+			if wr[fv.Name()] {
+				who = "appendEntry"
+			}
+			missing = append(missing, who+" does not update "+fv.Name())
+		}
+	}
+	c.Check(len(missing) == 0, "list | appendEntry and removeEntry update the same link fields", c.P.Pos(rm.Pos()), "", "the two list operations disagree on the fields they maintain ("+strings.Join(missing, "; ")+"): the list is left half-linked, so walking it from one end (eviction picks the oldest entry) reaches entries that were taken or closed, or skips live ones")
+	// ... and with the right values: what each link store writes, by the field the value was loaded from (or the
+	// entry being linked). appendEntry: head, tail, tail.next <- entry; entry.prev <- old tail.
+	// removeEntry: head, prev.next <- entry.next; tail, next.prev <- entry.prev.
+	src := func(f *ssa.Function, v ssa.Value) string {
+		v = an.Unwrap(v)
+		if len(f.Params) > 1 && v == ssa.Value(f.Params[1]) {
+			return "entry"
+		}
+		if ld, ok := v.(*ssa.UnOp); ok && ld.Op == token.MUL {
+			if fv := an.PathOf(ld.X).Last(); fv != nil {
+				switch {
+				case isFieldOf(fv, pa.head):
+					return "head"
+				case isFieldOf(fv, pa.tail):
+					return "tail"
+				case isFieldOf(fv, pa.next):
+					return "next"
+				case isFieldOf(fv, pa.pv):
+					return "prev"
+				}
+			}
+		}
+		if k, ok := v.(*ssa.Const); ok && k.Value == nil {
+			return "nil"
+		}
+		return "?"
+	}
+	wantAp := map[string]string{"head": "entry", "tail": "entry", "next": "entry", "prev": "tail"}
+	wantRm := map[string]string{"head": "next", "tail": "prev", "next": "next", "prev": "prev"}
+	for _, x := range []struct {
+		f    *ssa.Function
+		want map[string]string
+	}{{ap, wantAp}, {rm, wantRm}} {
+		var wrong []string
+		an.Instrs(x.f, func(in ssa.Instruction) {
+			st, ok := in.(*ssa.Store)
+			if !ok {
+				return
+			}
+			fv := an.PathOf(st.Addr).Last()
+			if !isFieldOf(fv, pa.head, pa.tail, pa.next, pa.pv) {
+				return
+			}
+			name := "next"
+			switch {
+			case isFieldOf(fv, pa.head):
+				name = "head"
+			case isFieldOf(fv, pa.tail):
+				name = "tail"
+			case isFieldOf(fv, pa.pv):
+				name = "prev"
+			}
+			if got := src(x.f, st.Val); got != x.want[name] && got != "nil" {
+				wrong = append(wrong, fmt.Sprintf("%s is set from %s (wanted %s)", name, got, x.want[name]))
+			}
+		})
+		c.Check(len(wrong) == 0, an.ShortFunc(x.f)+" | each link is set from the right neighbour", c.P.Pos(x.f.Pos()), "", "a link store takes its value from the wrong field ("+strings.Join(wrong, "; ")+"): with three or more entries the list loses or repeats entries while count still includes them")
+	}
 	// count updated exactly once in each
 	for _, f := range []*ssa.Function{rm, ap} {
 		c.Check(len(fieldStores(f, pa.count)) == 1, an.ShortFunc(f)+" | count updated exactly once", c.P.Pos(f.Pos()), "", "the list count is updated more or less than once per operation")
